@@ -245,20 +245,30 @@ func sharedVerifier(g *Gen, f *sif.FileImage, v VOpts, n int, backend string) st
 		mu.Unlock()
 		return false
 	}))
-	ver, err := integrity.NewVerifier(f, opts...)
+	// the solo answers come from a Verifier of their own: the shared one must be fresh, so that
+	// the goroutines' calls are the first ones ever made on it
+	ver0, err := integrity.NewVerifier(f, opts...)
 	if err != nil {
 		return ""
 	}
-	soloErr := ver.Verify()
+	soloErr := ver0.Verify()
 	var solo []string
 	for _, r := range held {
 		solo = append(solo, canonResult(r))
 	}
 	sort.Strings(solo)
-	soloAny, _ := ver.AnySignedBy()
+	soloAny, soloAnyErr := ver0.AnySignedBy()
+	soloAll, soloAllErr := ver0.AllSignedBy()
 	held = nil
+	ver, err := integrity.NewVerifier(f, opts...)
+	if err != nil {
+		return ""
+	}
 	errs := make([]error, n)
 	anys := make([][][]byte, n)
+	alls := make([][][]byte, n)
+	anyErrs := make([]error, n)
+	allErrs := make([]error, n)
 	var wg sync.WaitGroup
 	start := make(chan struct{})
 	for k := 0; k < n; k++ {
@@ -266,8 +276,21 @@ func sharedVerifier(g *Gen, f *sif.FileImage, v VOpts, n int, backend string) st
 		go func(k int) {
 			defer wg.Done()
 			<-start
-			errs[k] = ver.Verify()
-			anys[k], _ = ver.AnySignedBy()
+			// the goroutines start with different calls
+			switch k % 3 {
+			case 0:
+				alls[k], allErrs[k] = ver.AllSignedBy()
+				anys[k], anyErrs[k] = ver.AnySignedBy()
+				errs[k] = ver.Verify()
+			case 1:
+				anys[k], anyErrs[k] = ver.AnySignedBy()
+				alls[k], allErrs[k] = ver.AllSignedBy()
+				errs[k] = ver.Verify()
+			default:
+				errs[k] = ver.Verify()
+				alls[k], allErrs[k] = ver.AllSignedBy()
+				anys[k], anyErrs[k] = ver.AnySignedBy()
+			}
 		}(k)
 	}
 	close(start)
@@ -277,8 +300,11 @@ func sharedVerifier(g *Gen, f *sif.FileImage, v VOpts, n int, backend string) st
 		if (errs[k] == nil) != (soloErr == nil) {
 			return fmt.Sprintf("one Verifier shared by %d goroutines on a %s handle: Verify returned %v, alone it returns %v", n, backend, errs[k], soloErr)
 		}
-		if fmt.Sprint(anys[k]) != fmt.Sprint(soloAny) {
-			return fmt.Sprintf("one Verifier shared by %d goroutines on a %s handle: AnySignedBy returned %x, alone %x", n, backend, anys[k], soloAny)
+		if fmt.Sprint(anys[k]) != fmt.Sprint(soloAny) || (anyErrs[k] == nil) != (soloAnyErr == nil) {
+			return fmt.Sprintf("one fresh Verifier shared by %d goroutines on a %s handle: AnySignedBy returned %x (%v), alone %x (%v)", n, backend, anys[k], anyErrs[k], soloAny, soloAnyErr)
+		}
+		if fmt.Sprint(alls[k]) != fmt.Sprint(soloAll) || (allErrs[k] == nil) != (soloAllErr == nil) {
+			return fmt.Sprintf("one fresh Verifier shared by %d goroutines on a %s handle: AllSignedBy returned %x (%v), alone %x (%v)", n, backend, alls[k], allErrs[k], soloAll, soloAllErr)
 		}
 	}
 	var got []string
